@@ -451,3 +451,40 @@ Proof.
   - unfold identity. vm_compute. split; [reflexivity|split; [discriminate|exists true; reflexivity]].
   - vm_compute. repeat split; reflexivity.
 Qed.
+
+(** ---------------- a start killed while rewriting its files ---------------- *)
+Definition ver_after_restart (order : list cfgkey) (n : nat) (d : disk) (h : bytes) : N :=
+  c_version (snd (start (start_interrupted order n d [66] 8 h) [67] 9 h)).
+
+(** with the order in which the Go source writes the files (read from config.go on this run), a
+    start with a changed structure that is killed after ANY number of completed file writes, and
+    then repeated, yields a configuration number greater than the one before the change *)
+Lemma interrupted_start_still_increases : forall n d oh h v,
+  order_of Extracted.cfg_save_keys = [KUuid; KVersion; KHash] ->
+  d_hash d = Some oh -> oh <> [] -> h <> [] -> eqb_bytes oh h = false -> d_version d = Some v ->
+  v < ver_after_restart (order_of Extracted.cfg_save_keys) n d h.
+Proof.
+  intros n d oh h v -> Hh Hoh Hne Hdiff Hv. unfold ver_after_restart, start_interrupted.
+  pose proof (version_rule d [66] 8 h) as Hr. destruct (start d [66] 8 h) as [d' cfg]. destruct Hr as (_ & _ & Hc).
+  rewrite Hv, Hh in Hc. destruct oh as [|o0 oh']; [congruence|]. cbn [nonempty] in Hc. rewrite Hdiff in Hc.
+  destruct h as [|h0 h']; [congruence|].
+  destruct n as [|[|[|n]]]; cbn [firstn]; rewrite ?firstn_nil; cbn [fold_left save_one].
+  - match goal with |- _ < c_version (snd (start ?dd _ _ _)) => pose proof (version_rule dd [67] 9 (h0 :: h')) as H2; destruct (start dd [67] 9 (h0 :: h')) as [d2 c2] end.
+    destruct H2 as (_ & _ & H2). cbn [d_version d_hash snd] in *. rewrite Hv, Hh in H2. cbn [nonempty] in H2. rewrite Hdiff in H2. lia.
+  - match goal with |- _ < c_version (snd (start ?dd _ _ _)) => pose proof (version_rule dd [67] 9 (h0 :: h')) as H2; destruct (start dd [67] 9 (h0 :: h')) as [d2 c2] end.
+    destruct H2 as (_ & _ & H2). cbn [d_version d_hash snd] in *. rewrite Hv, Hh in H2. cbn [nonempty] in H2. rewrite Hdiff in H2. lia.
+  - match goal with |- _ < c_version (snd (start ?dd _ _ _)) => pose proof (version_rule dd [67] 9 (h0 :: h')) as H2; destruct (start dd [67] 9 (h0 :: h')) as [d2 c2] end.
+    destruct H2 as (_ & _ & H2). cbn [d_version d_hash snd] in *. rewrite Hh in H2. cbn [nonempty] in H2. rewrite Hdiff in H2. lia.
+  - match goal with |- _ < c_version (snd (start ?dd _ _ _)) => pose proof (version_rule dd [67] 9 (h0 :: h')) as H2; destruct (start dd [67] 9 (h0 :: h')) as [d2 c2] end.
+    destruct H2 as (_ & _ & H2). cbn [d_version d_hash snd] in *. cbn [nonempty] in H2. rewrite eqb_bytes_refl in H2. lia.
+Qed.
+
+Lemma source_save_order : order_of Extracted.cfg_save_keys = [KUuid; KVersion; KHash].
+Proof. vm_compute. reflexivity. Qed.
+
+(** writing the hash first loses the increase when the kill comes right after it *)
+Lemma hash_first_loses_the_increase :
+  let d := fst (start empty_disk [65] 7 [1]) in
+  d_version d = Some 1 /\ ver_after_restart [KHash; KUuid; KVersion] 1 d [2] = 1 /\
+  ver_after_restart [KUuid; KVersion; KHash] 1 d [2] = 2.
+Proof. vm_compute. repeat split; reflexivity. Qed.
